@@ -99,6 +99,8 @@ func (handler *HeadersHandler) Handle(ctx context.Context, m wire.Message) ([]wi
 					if err == state.ErrWrongPreviousHash {
 						logger.Warn(ctx, "Wrong previous hash : %s", header.PrevBlock)
 					}
+					// The block is not requested, so ask for headers again later.
+					handler.state.ClearInSync()
 				} else if sendRequest {
 					// logger.Debug(ctx, "Requesting block : %s", hash)
 					getBlocks.AddInvVect(wire.NewInvVect(wire.InvTypeBlock, hash))
@@ -145,6 +147,9 @@ func (handler *HeadersHandler) Handle(ctx context.Context, m wire.Message) ([]wi
 				if errors.Cause(err) == state.ErrWrongPreviousHash {
 					logger.Warn(ctx, "Wrong previous hash : %s", header.PrevBlock)
 				}
+				// The block processor can have taken the fork's parent off the requests in the
+				// meantime. The block is not requested, so ask for headers again later.
+				handler.state.ClearInSync()
 			} else if sendRequest {
 				// logger.Debug(ctx, "Requesting block : %s", hash)
 				getBlocks.AddInvVect(wire.NewInvVect(wire.InvTypeBlock, hash))
@@ -247,6 +252,8 @@ func (handler *HeadersHandler) Handle(ctx context.Context, m wire.Message) ([]wi
 					if errors.Cause(err) == state.ErrWrongPreviousHash {
 						logger.Warn(ctx, "Wrong previous hash : %s", header.PrevBlock)
 					}
+					// The block is not requested, so ask for headers again later.
+					handler.state.ClearInSync()
 				} else if sendRequest {
 					// logger.Debug(ctx, "Requesting block : %s", hash)
 					getBlocks.AddInvVect(wire.NewInvVect(wire.InvTypeBlock, hash))
